@@ -286,6 +286,30 @@ func (ex *Exec) freshOfType(st *State, t types.Type, what string) Val {
 	return v
 }
 
+// bumpAlloc: after a call whose body is not seen, the allocation frontier is somewhere at or above where it was, and the
+// references the call returned designate objects that exist by then (so an object allocated later is a different one).
+func (ex *Exec) bumpAlloc(st *State, res Val) {
+	vc := ex.vc
+	if st.allocTop.S == "" {
+		return
+	}
+	nt := vc.fresh("alloc_call", SInt)
+	st.assume(app(">=", nt.S, st.allocTop.S))
+	st.allocTop = nt
+	var vals []Val
+	switch res.K {
+	case VTuple:
+		vals = res.Tup
+	case VTerm:
+		vals = []Val{res}
+	}
+	for _, v := range vals {
+		if v.K == VTerm && v.T.Sort == SRef {
+			st.assume(app("<=", v.T.S, nt.S))
+		}
+	}
+}
+
 func (ex *Exec) resultVal(st *State, sig *types.Signature, what string) Val {
 	res := sig.Results()
 	switch res.Len() {
@@ -627,6 +651,7 @@ func (ex *Exec) applyContract(fr *Frame, c *FuncContract, callee *ssa.Function, 
 		ex.applyHavoc(st, ws)
 	}
 	res := ex.resultVal(st, sig, "res_"+shortName(name))
+	ex.bumpAlloc(st, res)
 	post := ex.newEnv(st, pre, pkg, fr)
 	post.calleeFn = callee
 	for kk, v := range env.binds {
